@@ -232,7 +232,7 @@ METADATA = [
     ("nonfinite", {"inf": math.inf, "ninf": -math.inf, "nan": math.nan}),
     ("bigint", {"i": -(2 ** 63) - 1, "j": 2 ** 200}),
     ("tuple", {"t": (1, ("a", b"b")), "e": ()}),
-    ("keys", {"a": {1: "int", b"b": "bytes", "s": "str", 2.5: "float", None: "none", True: "bool"}}),
+    ("keys", {"a": {7: "int", b"b": "bytes", "s": "str", 2.5: "float", None: "none", True: "bool"}}),
     ("bytes", {"b": bytes(range(256))}),
     ("typical", {"replay": True, "proxyauth": ("user", "p:ass")}),
 ]
